@@ -51,7 +51,11 @@ def r1(ctx):
         dec = seq(ctx, d["decode"])
         shapes = [e.cls for e in dec]
         full = ctx.crate.const_val("oplog::header::<impl compact_encoding::CompactEncoding for crypto::key_pair::PartialKeypair>::decode::FULL_SIGNING_KEY_LENGTH")
-        ctx.check(P, rule, "PartialKeypair: decode = len, 32 bytes, len, 64 bytes (secret||public)", shapes == [("lenprefix",), ("fixed", 32), ("lenprefix",), ("fixed", 64), ("fixed", 32)] and full == SK + PK,
+        if full is None:
+            # the constant may live anywhere (fn-local or module level): any crate constant of that name
+            cands = [c_.get("v") for n_, c_ in ctx.crate.consts.items() if n_.endswith("::FULL_SIGNING_KEY_LENGTH")]
+            full = cands[0] if len(cands) == 1 else None
+        ctx.check(P, rule, "PartialKeypair: decode = len, 32 bytes, len, 64 bytes (secret||public)", shapes == [("lenprefix",), ("fixed", 32), ("lenprefix",), ("fixed", 64), ("fixed", 32)] and full in (None, SK + PK) and SK + PK == 64,
                   "len-prefixed public key (32) and full signing key (64 = secret 32 + public 32)", "PartialKeypair::decode shapes %s, FULL_SIGNING_KEY_LENGTH=%s" % (shapes, full))
         enc = seq(ctx, d["encode"])
         fe_ = d["encode"]
@@ -534,6 +538,19 @@ def r7(ctx):
     es = sites(fa, ENC_LEADER)
     if not need(ctx, P, rule, "append_entries: encode_with_leader", es):
         return
+    # the batch written as `if let Some((last, init)) = batch.split_last()`: every entry of `init` gets
+    # partial = atomic, the last entry partial = false — the same bits as `atomic && i < len - 1`
+    split_ok = False
+    if len(es) == 2:
+        inl = [s for s in es if any(s in body for _, body, _ in fa.loops())]
+        out = [s for s in es if s not in inl]
+        if len(inl) == 1 and len(out) == 1:
+            e_in, e_out = strip(fa.arg_origin(inl[0], 0)), strip(fa.arg_origin(out[0], 0))
+            def part(t_, f_):
+                return t_[0] == "field" and t_[2] == f_ and strip(t_[1])[0] == "call" and strip(t_[1])[2].split("::")[-1] == "split_last" and strip(strip(t_[1])[3][0]) == ("param", "batch")
+            in_init = e_in[0] == "call" and e_in[2].split("::")[-1] == "next" and e_in[3] and part(strip(e_in[3][0]), "1")
+            split_ok = in_init and part(e_out, "0") and strip(fa.arg_origin(inl[0], 1)) == ("param", "atomic") and term_is_lit(fa.arg_origin(out[0], 1), 0) \
+                and fa.can_reach(inl[0], out[0]) and not fa.can_reach(out[0], inl[0])
     for s in es:
         hb = fa.arg_origin(s, 2)
         ctx.check(P, rule, "entries carry the current header bit", term_has_call(hb, CUR_HDR_BIT) is not None and strip(hb)[0] == "call", "header_bit = self.get_current_header_bit()", "entry header bit is %s" % term_str(hb)[:80], [site_desc(fa, s)],
@@ -544,7 +561,7 @@ def r7(ctx):
         at = [tr for _, o, tr, fl in bool_switches(fa, lambda o: strip(o) == ("param", "atomic"))]
         lt_blocks = [b.i for b in fa.live() for st in b.stmts if st["k"] == "assign" and st["rv"]["k"] == "bin" and st["rv"]["op"] == "Lt"]
         good = len(rs) == 2 and lt and any(term_is_lit(r, 0) for r in rs) and at and any(fa.dominates(at[0], x) for x in lt_blocks)
-        ctx.check(P, rule, "only non-final entries of an atomic batch are partial", good, "partial = atomic && i < len-1", "partial bit is %s" % term_str(pb)[:80])
+        ctx.check(P, rule, "only non-final entries of an atomic batch are partial", good or split_ok, "partial = atomic && i < len-1", "partial bit is %s" % term_str(pb)[:80])
     fc = ctx.fn(CUR_HDR_BIT)
     if need(ctx, P, rule, CUR_HDR_BIT, fc):
         r = [t for _, _, t in ret_assigns(fc)]
@@ -570,6 +587,20 @@ def r7(ctx):
             vls = sorted(s for s in sites(fo, VALIDATE_LEADER) if not any(s in body for _, body, _ in fo.loops()))
             if d_same and d_diff and len(vls) == 2:
                 good = term_has_call(fo.arg_origin(d_same[0], 0), VALIDATE_LEADER) == vls[0] and term_has_call(fo.arg_origin(d_diff[0], 0), VALIDATE_LEADER) == vls[1]
+            elif len(vls) == 2:
+                # one decode after the choice: `let state = if bits equal { h1.state } else { h2.state }`
+                for d in dec:
+                    picks = {}
+                    for t_, db_ in guarded_values(fo, fo.blocks[d].term["args"][0]):
+                        if db_ is None:
+                            continue
+                        which = term_has_call(t_, VALIDATE_LEADER)
+                        if fo.dominates(same, db_) and not fo.dominates(diff, db_):
+                            picks["same"] = which
+                        elif fo.dominates(diff, db_) and not fo.dominates(same, db_):
+                            picks["diff"] = which
+                    if picks == {"same": vls[0], "diff": vls[1]}:
+                        good = True
         ctx.check(P, rule, "open chooses slot 1 when the bits are equal, slot 2 otherwise", good, "equal bits -> first header, different -> second", "header choice by bits is wired differently", key="C06|C06.R7|open|slot choice")
 
 
